@@ -7,7 +7,7 @@ tie      : translator harness/c19_tr.py (AST of /repo -> coq/C19/gen/Guards.v: _
            Coq evaluates (a) its SPEC of torch's rules against torch's verdict and (b) the MODEL (guard table verdict +
            translated guards, or the transcription of the pinned override) against the implementation's verdict.
 search   : the property predicate evaluated directly on every case:  torch refuses  =>  the implementation raises
-           (a lazily constructed result that raises when its shape / dense form is requested counts as raising).
+           (a lazily constructed result whose .shape raises counts as raising; one that advertises a shape is a returned result).
 """
 import json
 import os
@@ -179,6 +179,11 @@ def cases_for(sh, rng):
                    "arg": {"others": [tspec(rng, [2] + list(sh))], "pos": 0, "dim": dim}})
         cs.append({"op": "cat", "kind": "ok_dim%d" % dim, "arg": {"others": [tspec(rng, ok)], "pos": 0, "dim": dim}})
     cs.append({"op": "cat", "kind": "dim_out_of_range", "arg": {"others": [tspec(rng, list(sh))], "pos": 0, "dim": nd}})
+    # cat_rows(cross_mat, new_mat):  [[A, B^T], [B, D]]
+    for kind, cs_, ns_ in (("wrong_cols", B + [2, n + 1], B + [2, 2]), ("new_mat_wrong", B + [2, n], B + [3, 3]),
+                           ("new_mat_rect", B + [2, n], B + [2, 3]), ("ok", B + [2, n], B + [2, 2])):
+        cs.append({"op": "cat_rows", "kind": kind if sq or kind != "ok" else "nonsquare_ok_shapes",
+                   "arg": {"cross": tspec(rng, cs_), "new": tspec(rng, ns_)}})
     # getitem
     for pos in range(nd):
         size = sh[pos]
@@ -191,10 +196,34 @@ def cases_for(sh, rng):
             idx = [{"tensor": {"shape": [2], "data": [0, v if p == pos else 0]}} for p in range(nd)]
             cs.append({"op": "getitem_alltensor", "kind": "%s_%s" % (kind, where), "arg": {"idx": idx}})
     cs.append({"op": "getitem_int", "kind": "too_many", "arg": {"idx": [{"int": 0}] * (nd + 1)}})
+    # constructors with a dense counterpart (checked by _check_args under settings.debug, or lazily by _size)
+    for kind, s in matmul_operands(B, m, n):
+        if len(s) >= 2:
+            cs.append({"op": "ctor_matmul", "kind": kind, "arg": tspec(rng, s)})
+    for kind, s in (("wrong_len", [n + 1]), ("wrong_len_batched", B + [n + 1]), ("ok_full", B + [n])):
+        cs.append({"op": "add_diag_lo", "kind": kind if sq else "nonsquare_" + kind, "arg": tspec(rng, s)})
     if not sq:
         for op in ("solve", "inv_quad", "inv_quad_logdet", "logdet", "cholesky", "root_decomposition",
                    "root_inv_decomposition", "diagonalization"):
             cs.append({"op": op, "kind": "nonsquare", "arg": tspec(rng, [m, 2])})
+    return cs
+
+
+def ctor_cases(clsname, sh, rng):
+    """constructor calls tied to one class: DenseLinearOperator(non-matrix), MulLinearOperator(shape mismatch),
+    InterpolatedLinearOperator(index / value shape mismatch)"""
+    B, m, n = sh[:-2], sh[-2], sh[-1]
+    cs = []
+    if clsname == "DenseLinearOperator":
+        for kind, s in (("vector", [n]), ("scalar", []), ("ok_matrix", [m, n]), ("ok_batched", [2, m, n])):
+            cs.append({"op": "ctor_dense", "kind": kind, "arg": tspec(rng, s)})
+    if clsname == "RootLinearOperator" and m == n:
+        for kind, s in (("wrong_size", B + [n + 1, 2]), ("ok_same", B + [n, 2])) + \
+                ((("bad_batch", [B[0] + 3] + B[1:] + [n, 2]),) if B and B[0] != 1 else ()):
+            cs.append({"op": "ctor_mul", "kind": kind, "arg": tspec(rng, s)})
+    if clsname == "InterpolatedLinearOperator":
+        for kind in ("left_values_shape", "right_values_shape", "ok"):
+            cs.append({"op": "ctor_interp", "kind": kind, "arg": {"which": kind}})
     return cs
 
 
@@ -212,15 +241,17 @@ def py_index(idx):
 
 
 def force(r):
-    """shape of a result; lazily constructed operators are forced (a deferred raise counts as a raise)"""
+    """shape of a result.  A lazily constructed operator whose .shape cannot even be read counts as raising; one that
+    advertises a shape is a returned result, also when its dense form then fails (its shape is what the caller sees)."""
     if isinstance(r, tuple):
         r = r[0]
     if hasattr(r, "to_dense") and not hasattr(r, "storage"):
         shp = tuple(r.shape)
-        d = r.to_dense()
-        if tuple(d.shape) != shp:
-            shp = tuple(d.shape)
-        return shp
+        try:
+            d = r.to_dense()
+        except Exception:
+            return shp
+        return tuple(d.shape)
     return tuple(r.shape)
 
 
@@ -248,6 +279,8 @@ def execute(op, D, case):
     if o in ("matmul", "rmatmul", "solve", "inv_quad", "inv_quad_logdet", "inv_quad_logdet_ld", "add", "sub", "mul",
              "add_lo", "mul_lo", "matmul_lo", "add_diagonal"):
         X = ob.tt(arg)
+    if o.startswith("ctor_") and isinstance(arg, dict) and "shape" not in arg and o != "ctor_interp":
+        raise ValueError(o)
     Z = None
     if o == "matmul":
         return attempt(lambda: op.matmul(X)), attempt(lambda: D.matmul(X))
@@ -290,6 +323,42 @@ def execute(op, D, case):
         ins_d = list(others)
         ins_d.insert(pos, D)
         return attempt(lambda: lo_cat(ins_lo, dim=dim)), attempt(lambda: torch.cat(ins_d, dim=dim))
+    if o == "ctor_matmul":
+        from linear_operator.operators import MatmulLinearOperator
+        X = ob.tt(arg)
+        return attempt(lambda: MatmulLinearOperator(op, DenseLinearOperator(X))), attempt(lambda: D.matmul(X))
+    if o == "add_diag_lo":
+        from linear_operator.operators import DiagLinearOperator
+        X = ob.tt(arg)
+
+        def ref():
+            return D + torch.diag_embed(X)
+        return attempt(lambda: op + DiagLinearOperator(X)), attempt(need_square(ref))
+    if o == "ctor_dense":
+        X = ob.tt(arg)
+        return attempt(lambda: DenseLinearOperator(X)), (("ok", list(X.shape)) if X.dim() >= 2 else
+                                                         ("raise", "contract: a matrix or a batch of matrices"))
+    if o == "ctor_mul":
+        from linear_operator.operators import MulLinearOperator, RootLinearOperator
+        R = ob.tt(arg)
+        other = RootLinearOperator(R)
+        return attempt(lambda: MulLinearOperator(op, other)), attempt(lambda: D * (R @ R.mT))
+    if o == "ctor_interp":
+        from linear_operator.operators import InterpolatedLinearOperator
+        li, lv = op.left_interp_indices, op.left_interp_values
+        ri, rv = op.right_interp_indices, op.right_interp_values
+        if arg["which"] == "left_values_shape":
+            lv = lv[..., :-1, :]
+        elif arg["which"] == "right_values_shape":
+            rv = torch.cat([rv, rv], dim=-1)
+        ref = ("ok", list(D.shape)) if arg["which"] == "ok" else ("raise", "contract: indices and values have the same shape")
+        return attempt(lambda: InterpolatedLinearOperator(op.base_linear_op, li, lv, ri, rv)), ref
+    if o == "cat_rows":
+        Bm, Dn = ob.tt(arg["cross"]), ob.tt(arg["new"])
+
+        def ref():
+            return torch.cat([torch.cat([D, Bm], dim=-2), torch.cat([Bm.mT, Dn], dim=-2)], dim=-1)
+        return attempt(lambda: op.cat_rows(Bm, Dn, generate_roots=False, generate_inv_roots=False)), attempt(ref)
     if o.startswith("getitem"):
         idx = py_index(arg["idx"])
         return attempt(lambda: op[idx]), attempt(lambda: D[idx])
@@ -309,7 +378,11 @@ def shape_lit(s):
 
 
 def verdict_lit(v):
-    return "VRaise" if v[0] == "raise" else "(VOk %s)" % shape_lit(v[1])
+    if v[0] == "raise":
+        return "VRaise"
+    if any(int(x) < 0 for x in v[1]):
+        return "VOkAny"                      # an advertised shape with a negative entry is not a shape
+    return "(VOk %s)" % shape_lit(v[1])
 
 
 def query_lit(case, sh):
@@ -325,6 +398,11 @@ def query_lit(case, sh):
     if o == "cat":
         return "(QCat %d %s %s)" % (arg["pos"], "[" + "; ".join(shape_lit(t["shape"]) for t in arg["others"]) + "]",
                                     common.zlit(arg["dim"]))
+    if o == "ctor_dense":
+        return "(QCtorDense %s)" % shape_lit(arg["shape"])
+    if o == "ctor_mul":
+        r = arg["shape"]
+        return "(QCtorMul %s)" % shape_lit(r[:-2] + [r[-2], r[-2]])
     if o.startswith("getitem"):
         items = []
         for k, it in enumerate(arg["idx"]):
@@ -370,7 +448,7 @@ def run_grid(ctx, quick, limit_report=None):
             continue
         clsname = type(op).__name__
         rng = random.Random("%d-cases-%s" % (ctx.seed, tag))
-        for case in cases_for(sh, rng):
+        for case in cases_for(sh, rng) + ctor_cases(clsname, sh, rng):
             impl, ref = execute(op, D, case)
             recs.append({"tag": tag, "expr": e, "cls": clsname, "shape": sh, "case": case, "impl": impl, "torch": ref})
     return recs
@@ -547,7 +625,8 @@ def run(ctx):
     ctx.assumptions = [
         "settings.debug is on (the library default): with debug off the library documents that index and constructor "
         "checks are skipped",
-        "a lazily constructed result that raises as soon as its shape or dense form is requested counts as raising",
+        "a lazily constructed result whose .shape cannot be read counts as raising; one that advertises a shape counts as "
+        "returned (also when producing its dense form fails later)",
         "operands are torch tensors or DenseLinearOperator-wrapped tensors; the guard-table theorems cover tensor operands",
         "solve / inv_quad are compared with the shape rule of A^{-1} B (torch.matmul's rule on the dense operands, square A)",
         "no zero-size dimensions",
